@@ -9,7 +9,16 @@
 (* to the explicit enumeration (E) by the MC_Brandes and MC_BrandesPower models). *)
 (* Domain: n <= 10, lengths in 0..3, empty diagonal (32-bit safety: see module    *)
 (* Betweenness).                                                                  *)
-EXTENDS Betweenness, TraceBase
+(* Scale regime (r.kind = "chain"): the input is a chain of gadgets (module        *)
+(* BetweennessChain) with up to 1200 nodes, 2^70 / 3^81 ... tied shortest paths,   *)
+(* lengths b * 2^e; the record carries the chain, the connections of the matrix    *)
+(* the routine was actually handed (r.edges, <<from, to, odd mantissa, exponent>>) *)
+(* and the returned values as <<whole part, 10^-6 part>> (bc_w/bc_f per node,      *)
+(* ebc_w/ebc_f per connection in the order of r.edges, ebc_off = number of non-zero *)
+(* cells where there is no connection, ref_w/ref_f = the node routine's vector).    *)
+(* Expected values: BetweennessChain!ChainNodeNum / ChainEdgeNum (composition,      *)
+(* proved equal to the definitions by MC_BetweennessChain on small chains).         *)
+EXTENDS BetweennessChain, TraceBase
 
 IsEdgeFn(r) == r.fn \in {"edge_betweenness_bin", "edge_betweenness_wei"}
 IsBinFn(r)  == r.fn \in {"betweenness_bin", "edge_betweenness_bin"}
@@ -65,8 +74,58 @@ Class(r) ==
        IF m = 0 THEN "strongly_connected"
        ELSE IF m = 1 THEN "some_source_misses_1" ELSE "some_source_misses_2plus"
 
+(* ---------------- scale regime: chains of gadgets ------------------------------ *)
+Chain(r) == [lib |-> r.lib, seq |-> r.seq]
+InDomainChain(r) ==
+  LET ch == Chain(r) IN
+  /\ ChainOK(ch)
+  /\ r.n = ChainN(ch) /\ r.n <= 1200
+  /\ ChainDen(ch) <= DenMax
+  (* the matrix the routine was handed IS the chain                                  *)
+  /\ Len(r.edges) = Cardinality(ChainEdges(ch))
+  /\ {r.edges[x] : x \in DOMAIN r.edges} = ChainEdges(ch)
+  /\ IsBinFn(r) => \A x \in DOMAIN r.edges : r.edges[x][3] = 1 /\ r.edges[x][4] = 0
+
+ShapeChain(r) ==
+  /\ r.malformed = ""
+  /\ DOMAIN r.bc_w = 1..r.n /\ DOMAIN r.bc_f = 1..r.n
+  /\ IsEdgeFn(r) => DOMAIN r.ebc_w = DOMAIN r.edges /\ DOMAIN r.ebc_f = DOMAIN r.edges
+
+JudgeChain(r, X) ==
+  LET n == r.n IN
+  Chk("Returns", r.raised = "",
+  Chk("WellFormed", ShapeChain(r),
+  (* "for every node the sum over ordered source-target pairs of the fraction of   *)
+  (* all shortest paths between them that pass through it"                          *)
+  Chk("NodeBCEqualsDefinition",
+      \A v \in 1..n : WFNearFrac(r.bc_w[v], r.bc_f[v], ChainNodeNum(X, v), X.den),
+  (* "... for every connection ..." (and exactly 0 where there is no connection)    *)
+  Chk("EdgeBCEqualsDefinition",
+      IsEdgeFn(r) =>
+         /\ r.ebc_off = 0
+         /\ \A x \in DOMAIN r.edges :
+              WFNearFrac(r.ebc_w[x], r.ebc_f[x], ChainEdgeNum(X, r.edges[x][1], r.edges[x][2]), X.den),
+  (* "the node vector returned by the edge routines equals the node routines'       *)
+  (* result" (judged when the node routine was run and returned)                    *)
+  Chk("EdgeRoutineNodeVectorEqualsNodeRoutine",
+      (IsEdgeFn(r) /\ r.ref_raised = "") =>
+         /\ DOMAIN r.ref_w = 1..n /\ DOMAIN r.ref_f = 1..n
+         /\ \A v \in 1..n : WFNear(r.bc_w[v], r.bc_f[v], r.ref_w[v], r.ref_f[v]),
+  "ok")))))
+
+(* input class: can the first junction reach, and be reached from, every node        *)
+ClassChain(r, X) ==
+  IF X.RF[1] = r.n - 1 /\ X.RT[1] = r.n - 1 THEN "chain_strongly_connected" ELSE "chain_some_unreachable"
+(* (the tables X are built once per record: LET definitions are evaluated on demand) *)
+JudgeChainRec(r) ==
+  LET X == ChainCtx(Chain(r)) IN
+  IF InDomainChain(r) THEN <<JudgeChain(r, X), "na", ClassChain(r, X)>>
+  ELSE <<"skip:out_of_domain", "na", "any">>
+
 (* the output is uniquely defined by the property: nothing can drift                *)
-Judge(r) == <<IF InDomain(r) THEN JudgeIn(r) ELSE "skip:out_of_domain", "na", Class(r)>>
+Judge(r) ==
+  IF r.kind = "chain" THEN JudgeChainRec(r)
+  ELSE <<IF InDomain(r) THEN JudgeIn(r) ELSE "skip:out_of_domain", "na", Class(r)>>
 
 VARIABLES tid, verdict
 TInit == tid \in 1..Len(Recs) /\ verdict = <<>>
